@@ -25,10 +25,13 @@ from fractions import Fraction as F
 from .. import core
 from .. import c02_stub as S
 from .. import c12_co as CO
+from . import c02 as P2
 
 PROP_FILES = [core.THEORIES / "C12" / "Props.v"]
 PREAMBLE = ("From SV Require Import C12.Batch.\nFrom Coq Require Import List Arith QArith.\n"
             "Import ListNotations.\n")
+PREAMBLE_S = ("From SV Require Import C12.Batch C12.Scale.\nFrom Coq Require Import List Arith ZArith QArith.\n"
+              "Import ListNotations.\n")
 TOL = 2e-5
 
 
@@ -70,31 +73,94 @@ def gen_many_small(rng, idx):
     return c
 
 
-def gen_case(rng, idx, kind):
-    if kind == "bottomup" and rng.random() < 0.2:
+def gen_mixed_sizes(rng, kind):
+    """(max_height, max_width) and 2-3 videos of DIFFERENT frame sizes for one labels file; the first two have
+    eff_scales that differ by >= 15 %.  Bottom-up: frames never larger than the maximum (eff_scale >= 1)."""
+    for _ in range(2000):
+        n = rng.choice([2, 2, 3])
+        sizes = [(rng.choice([96, 104, 112, 128, 144, 160]), rng.choice([96, 104, 112, 128, 144, 160])) for _ in range(n)]
+        if len(set(sizes)) != n:
+            continue
+        v = rng.choice(["max", "max_plus", "free"]) if kind != "bottomup" else rng.choice(["max", "max_plus"])
+        if v == "max":
+            mh, mw = max(h for h, _ in sizes), max(w for _, w in sizes)
+        elif v == "max_plus":
+            mh, mw = max(h for h, _ in sizes) + rng.choice([0, 8, 19]), max(w for _, w in sizes) + rng.choice([0, 13, 32])
+        else:
+            mh, mw = rng.randint(88, 176), rng.randint(88, 176)
+        if not all(P2.config_ok(h, w, mh, mw, [F(1)]) for h, w in sizes):
+            continue
+        effs = [P2.sizematch(h, w, mh, mw)["eff"] for h, w in sizes]
+        if abs(effs[0] / effs[1] - 1) < F(15, 100) or min(effs) < F(3, 5) or max(effs) > F(17, 10):
+            continue
+        return mh, mw, sizes
+    raise RuntimeError("generator could not choose mixed video sizes")
+
+
+def content_maps(h, w, mh, mw):
+    """per axis: original coordinate -> pixel coordinate of the size-matched image (scale 1, as every C12 case)"""
+    if mh is None and mw is None:
+        return (F(1), F(0)), (F(1), F(0))
+    g = P2.sizematch(h, w, mh, mw)
+    if not g["resized"]:
+        return (F(1), F(0)), (F(1), F(0))
+    return P2.resize_map(w, g["tw"]), P2.resize_map(h, g["th"])
+
+
+def fsize(c, fid):
+    if "sizes" in c:
+        h, w = c["sizes"][c["vid"][fid]]
+        return int(h), int(w)
+    return c["H"], c["W"]
+
+
+def gen_case(rng, idx, kind, mixed=False):
+    if kind == "bottomup" and rng.random() < 0.2 and not mixed:
         return gen_many_small(rng, idx)
-    H = rng.choice([96, 112, 128, 144])
-    W = rng.choice([96, 112, 128, 160])
     n_frames = rng.randint(2, 5)
+    if mixed:
+        mh, mw, sizes = gen_mixed_sizes(rng, kind)
+        H, W = sizes[0]
+        vid = [0, 1] + [rng.randrange(len(sizes)) for _ in range(n_frames - 2)]
+        crop = rng.choice([48, 64, [48, 64], [64, 48]])
+    else:
+        H = rng.choice([96, 112, 128, 144])
+        W = rng.choice([96, 112, 128, 160])
+        mh = mw = None
+        sizes, vid = [(H, W)], [0] * n_frames
+        crop = rng.choice([32, 32, [32, 48], [48, 32], 48])          # int = square, else [height, width]
     os_c = rng.choice([2, 4])
-    c = {"kind": kind, "idx": idx, "H": H, "W": W, "os_c": os_c, "os_i": 2, "crop": 32,
+    c = {"kind": kind, "idx": idx, "H": H, "W": W, "os_c": os_c, "os_i": 2, "crop": crop,
          "ms": rng.choice([1, 8, 16]), "refinement": rng.choice([None, "integral"]),
          "max_instances": rng.choice([None, 1, 2, 3]) if kind != "single" else None,
          "n_nodes": rng.randint(1, 3) if kind != "bottomup" else rng.randint(2, 3),
          "batch_mid": rng.randint(2, 4), "n_videos": rng.choice([1, 2, 2])}
+    if mixed:
+        c.update({"mh": mh, "mw": mw, "sizes": [list(x) for x in sizes], "vid": vid, "n_videos": len(sizes),
+                  "family": "mixed_video_sizes"})
     if kind == "bottomup":
         c["os_c"] = 2
         c["paf_os"] = rng.choice([2, 4])
     cells = [(i, j) for i in range(2) for j in range(2)]
     frames = []
     for f in range(n_frames):
+        H, W = sizes[vid[f]]
+        mx, my = content_maps(H, W, mh, mw)          # where the content sits in the image the network is given
+        eff = float(mx[0])
+        off = min(9, int(13 / max(eff, 1e-9)))        # keypoints stay inside the crop after size matching
+
+        def gp(x, y, os_):
+            return tie_margin(P2.app(mx, x), os_) >= F(1, 8) and tie_margin(P2.app(my, y), os_) >= F(1, 8)
+
         n_an = rng.choice([0, 1, 2, 3, 4]) if kind != "single" else rng.choice([0, 1, 1, 1])
+        if mixed and f < 2:
+            n_an = max(1, n_an)                       # the two frames that share a batch and differ in eff_scale
         animals = []
         for (ci, cj) in rng.sample(cells, n_an):
             for _ in range(200):
                 cx = F(rng.randrange(64 * (cj * W // 2 + 20), 64 * ((cj + 1) * W // 2 - 20)), 64)
                 cy = F(rng.randrange(64 * (ci * H // 2 + 20), 64 * ((ci + 1) * H // 2 - 20)), 64)
-                if tie_margin(cx, c["os_c"]) >= F(1, 8) and tie_margin(cy, c["os_c"]) >= F(1, 8):
+                if gp(cx, cy, c["os_c"]):
                     break
             kps = []
             if kind == "bottomup":
@@ -105,24 +171,25 @@ def gen_case(rng, idx, kind):
                         x = cx + (k - 1) * 7 + F(rng.choice([1, 2, 3, 5, 6, 7]), 8)
                         y = cy + F(rng.choice([-11, -5, 5, 11]), 8) + k
                         kps.append((x, y))
-                    if all(tie_margin(x, 2) >= F(1, 8) and tie_margin(y, 2) >= F(1, 8) for x, y in kps):
+                    if all(gp(x, y, 2) for x, y in kps):
                         break
                 if rng.random() < 0.15:
                     kps[-1] = None
             else:
                 for k in range(c["n_nodes"]):
-                    if rng.random() < 0.2:
+                    if rng.random() < 0.2 and not (mixed and f < 2 and not any(kps)):
                         kps.append(None)
                         continue
                     for _ in range(100):
-                        x = cx + F(rng.randrange(-8 * 9, 8 * 9 + 1), 8)
-                        y = cy + F(rng.randrange(-8 * 9, 8 * 9 + 1), 8)
-                        if kind != "single" or (tie_margin(x, 2) >= F(1, 8) and tie_margin(y, 2) >= F(1, 8)):
+                        x = cx + F(rng.randrange(-8 * off, 8 * off + 1), 8)
+                        y = cy + F(rng.randrange(-8 * off, 8 * off + 1), 8)
+                        if kind != "single" or gp(x, y, 2):
                             break
                     kps.append((x, y))
             animals.append({"kps": kps, "cent": (cx, cy)})
         frames.append(animals)
     if all(len(a) == 0 for a in frames):
+        H, W = sizes[vid[0]]
         frames[0] = frames[0] or [{"kps": [(F(W, 2) + F(1, 8), F(H, 2) + F(3, 8))] * c["n_nodes"],
                                    "cent": (F(W, 2) + F(1, 8), F(H, 2) + F(3, 8))}]
     c["frames"] = frames
@@ -153,27 +220,30 @@ def build_scene(c):
     edges = [(k, k + 1) for k in range(c["n_nodes"] - 1)] if c["kind"] == "bottomup" else None
     sc = S.Scene(c["n_nodes"], edges=edges)
     for f, animals in enumerate(c["frames"]):
-        sc.add(f, c["H"], c["W"], animals)
+        h, w = fsize(c, f)
+        sc.add(f, h, w, animals)
     return sc
 
 
 def run_once(c, mods, sc, order, batch, max_instances):
-    """The frames `order` (frame ids) through the real predictor of c['kind'].
+    """The frames `order` (frame ids) through the real predictor of c['kind'] (LabelsReader; cases with `sizes`: a
+    labels file of several videos of DIFFERENT frame sizes, size-matched to max_height/max_width).
     Returns {"records": [(fid_by_index, [inst...])] in output order, "pixel_fids": [...]}."""
-    video, labels, where = S.make_sources(sc, order, c["n_videos"])
+    video, labels, where = S.make_sources(sc, order, c["n_videos"], [c["vid"][f] for f in order] if "sizes" in c else None)
+    mh, mw = c.get("mh"), c.get("mw")
     if c["kind"] == "topdown":
         cfg = dict(os_c=c["os_c"], os_i=c["os_i"], scale_c=1.0, scale_i=1.0, ms_c=c["ms"], ms_i=c["ms"],
-                   max_h=None, max_w=None, crop=c["crop"], batch=batch, refinement=c["refinement"],
+                   max_h=mh, max_w=mw, crop=c["crop"], batch=batch, refinement=c["refinement"],
                    max_instances=max_instances)
         pred, st_c, st_i = S.build_topdown_predictor(mods, sc, cfg)
         logs = st_i.log
     elif c["kind"] == "single":
-        cfg = dict(os=2, scale=1.0, max_stride=c["ms"], max_h=None, max_w=None, batch=batch,
+        cfg = dict(os=2, scale=1.0, max_stride=c["ms"], max_h=mh, max_w=mw, batch=batch,
                    refinement=c["refinement"])
         pred, st = S.build_single_predictor(mods, sc, cfg)
         logs = st.log
     else:
-        cfg = dict(os=2, paf_os=c["paf_os"], scale=1.0, max_stride=c["ms"], max_h=None, max_w=None, batch=batch,
+        cfg = dict(os=2, paf_os=c["paf_os"], scale=1.0, max_stride=c["ms"], max_h=mh, max_w=mw, batch=batch,
                    refinement=c["refinement"], max_instances=max_instances)
         pred, st = S.build_bottomup_predictor(mods, sc, cfg)
         logs = st.log
@@ -198,7 +268,15 @@ def run_once(c, mods, sc, order, batch, max_instances):
             for r in logs[k:k + n]:
                 pix.append({r["fid"]})
             k += n
-    return {"records": records, "pixel_fids": pix, "where": dict(zip(order, where)), "n_raw": len(raw)}
+    # the (frame_idx, video_idx, eff_scale, orig_size) entries of every dictionary the inference model returned
+    entries = []
+    for ex in raw:
+        import numpy as np
+        osz = np.asarray(ex["orig_size"], dtype=np.float64).reshape(-1, 2)
+        entries.append([(int(f), int(v), float(e), int(hw[0]), int(hw[1]))
+                        for f, v, e, hw in zip(np.asarray(ex["frame_idx"]).ravel(), np.asarray(ex["video_idx"]).ravel(),
+                                               np.asarray(ex["eff_scale"]).ravel(), osz)])
+    return {"records": records, "pixel_fids": pix, "where": dict(zip(order, where)), "n_raw": len(raw), "entries": entries}
 
 
 def canon(insts):
@@ -326,6 +404,45 @@ def stream_term(c, run_out, order, batch, mi, ref_by_fid):
     return f"CStream {mi_t} {cnat(batch)} [{'; '.join(fs)}]"
 
 
+def eff_term(c, run_out, order, batch):
+    """Scale.srun: the batches _predict_generator assembles from the frames `order` of the labels file"""
+    def oz(v):
+        return "None" if v is None else f"(Some {core.cz(v)})"
+    fs = []
+    for fid in order:
+        vi, fi = run_out["where"][fid]
+        h, w = fsize(c, fid)
+        fs.append(f"({cnat(fi)}, {cnat(vi)}, ({core.cz(h)}, {core.cz(w)}))")
+    return f"CEff {oz(c.get('mh'))} {oz(c.get('mw'))} {cnat(batch)} [{'; '.join(fs)}]"
+
+
+def cmp_entries(c, name, model_batches, impl_entries):
+    """model: per batch [[fi, vi, [n, d], H, W]]; impl: per returned dictionary [(fi, vi, eff, H, W)].
+    Single-instance / bottom-up: one dictionary per batch, compared batch by batch (composition and order);
+    top-down: one dictionary per frame with detections (an entry per crop): each must be an entry of the model."""
+    out = []
+    mb = [[(e[0], e[1], e[2][0] / e[2][1], e[3], e[4]) for e in b] for b in model_batches]
+
+    def same(a, b):
+        return a[0] == b[0] and a[1] == b[1] and abs(a[2] - b[2]) <= 1e-6 * max(1.0, abs(b[2])) and a[3:] == b[3:]
+
+    if c["kind"] == "topdown":
+        flat = [e for b in mb for e in b]
+        for ex in impl_entries:
+            for e in ex:
+                if not any(same(e, m) for m in flat):
+                    out.append(f"run '{name}': dictionary entry (frame_idx, video_idx, eff_scale, orig_size) = {e} is not an entry "
+                               f"of the model's batches {flat}")
+                    return out
+        return out
+    if len(mb) != len(impl_entries):
+        return [f"run '{name}': {len(impl_entries)} dictionaries, model assembles {len(mb)} batches"]
+    for k, (m, ex) in enumerate(zip(mb, impl_entries)):
+        if len(m) != len(ex) or not all(same(a, b) for a, b in zip(ex, m)):
+            return [f"run '{name}' batch {k}: entries (frame_idx, video_idx, eff_scale, orig_size) {ex}, model {m}"]
+    return out
+
+
 def check(run: core.Run) -> int:
     run.build_and_prove(PROP_FILES)
     core.impl_env_setup()
@@ -346,11 +463,15 @@ def check(run: core.Run) -> int:
                 co_cases.append(CO.case_from_json(j))
             else:
                 cases.append(case_from_json(j))
+    # the last part of every stream ("mixed"): a labels file of 2-3 videos of DIFFERENT frame sizes with
+    # max_height/max_width size matching, so that one batch holds frames with different eff_scales
+    n_mix = {"topdown": 300, "single": 120, "bottomup": 140} if thorough else {"topdown": 12, "single": 5, "bottomup": 6}
     for kind, n in (("topdown", n_td), ("single", n_si), ("bottomup", n_bu)):
-        for _ in range(n):
-            cases.append(gen_case(run.rng, len(cases), kind))
+        for i in range(n):
+            cases.append(gen_case(run.rng, len(cases), kind, mixed=i >= n - n_mix[kind]))
 
     terms, index = [], []
+    sterms, sindex = [], []
     all_runs = []
     dist = {}
     for ci, c in enumerate(cases):
@@ -370,10 +491,15 @@ def check(run: core.Run) -> int:
             import traceback
             err = f"{type(e).__name__}: {e} :: {traceback.format_exc()[-800:]}"
         all_runs.append((runs, err))
-        for k in ("kind", "refinement", "max_instances", "n_videos"):
+        for k in ("kind", "refinement", "max_instances", "n_videos", "crop", "family"):
             key = f"{k}={c.get(k)}"
             dist[key] = dist.get(key, 0) + 1
         dist[f"frames={n}"] = dist.get(f"frames={n}", 0) + 1
+        if not err:
+            for name, order, batch in (("single", ids, 1), ("batch", ids, n), ("perm", c["perm"], n),
+                                       ("mid", ids, c["batch_mid"])):
+                sterms.append(eff_term(c, runs[name], order, batch))
+                sindex.append((ci, name))
         if err or c["kind"] != "topdown":
             continue
         # model: fed with the reference detections (in output order, with their centroid values)
@@ -389,6 +515,8 @@ def check(run: core.Run) -> int:
             terms.append(stream_term(c, runs[name], order, batch, mi, ref_by_fid))
             index.append((ci, name))
         # the NaN-padded table of CentroidCrop(return_crops=False) on the whole batch
+        if "sizes" in c:
+            continue                          # frames of different sizes cannot be stacked without the predictor's size matching
         try:
             imgs = torch.stack([torch.from_numpy(S.make_frame(c["H"], c["W"], f)).permute(2, 0, 1).float() / 255.0
                                 for f in ids]).unsqueeze(1)
@@ -410,8 +538,13 @@ def check(run: core.Run) -> int:
     by_case = {}
     for ix, m in zip(index, model):
         by_case.setdefault(ix[0], []).append((ix[1], m))
+    smodel = core.coq_eval_sharded(PREAMBLE_S, sterms, "srun", "rsres", shard=80, jobs=12) if sterms else []
+    s_by_case = {}
+    for ix, m in zip(sindex, smodel):
+        s_by_case.setdefault(ix[0], []).append((ix[1], m))
 
     disagreements = 0
+    scale_disagreements = 0
     ties = 0
     for ci, c in enumerate(cases):
         runs, err = all_runs[ci]
@@ -459,6 +592,12 @@ def check(run: core.Run) -> int:
                 diffs.append(f"run '{name}': impl {got} model {m}")
         if c.get("_table_err"):
             diffs.append("CentroidCrop(return_crops=False) raised " + c["_table_err"])
+        sdiffs = []
+        for name, m in s_by_case.get(ci, []):
+            sdiffs += cmp_entries(c, name, m, runs[name]["entries"])
+        if sdiffs:
+            scale_disagreements += 1
+            diffs += sdiffs[:2]
         if diffs:
             disagreements += 1
             if disagreements <= 4:
@@ -467,8 +606,9 @@ def check(run: core.Run) -> int:
             run.violation("failing-input", {"case": cj, "oracle": fails[:6], "correspondence": diffs[:3]})
         elif diffs:
             run.proof_broken.append(f"correspondence C12 model vs implementation, case {json.dumps(cj)[:800]}: {diffs[:2]}")
-    for _ in range(400 if thorough else 16):
-        co_cases.append(CO.gen_case(run.rng, len(cases) + len(co_cases)))
+    n_co, n_co_mix = (400, 120) if thorough else (16, 6)
+    for i in range(n_co):
+        co_cases.append(CO.gen_case(run.rng, len(cases) + len(co_cases), mixed=i >= n_co - n_co_mix))
     co_dis, co_stats = CO.evaluate(run, co_cases, mods, PREAMBLE)
     run.obligation("correspondence: Batch.run CGt (centroid_only_stream, Coq; fed with the one-by-one centroids) == real "
                    "TopDownPredictor without a centered-instance model (CentroidCrop(return_crops=False) + "
@@ -478,6 +618,11 @@ def check(run: core.Run) -> int:
         for k in ("kind", "refinement", "max_instances", "n_videos"):
             key = f"{k}={c.get(k)}"
             dist[key] = dist.get(key, 0) + 1
+    run.obligation("correspondence: Scale.srun (Coq, vm_compute: the batches assembled by _predict_generator, lists appended in "
+                   "step, apply_sizematcher as in C02.Decode) == the (frame_idx, video_idx, eff_scale, orig_size) entries of the "
+                   "dictionaries of the real Single-instance / BottomUp / TopDown predictors, every run (one by one, one batch, "
+                   "permuted, other batch size), one-size and mixed-size labels files", scale_disagreements == 0,
+                   f"{scale_disagreements} cases disagree")
     run.obligation("correspondence: Batch.run (Coq, vm_compute; fed with the one-by-one detections) == real "
                    "TopDownPredictor on every batch composition / order / batch size / max_instances, and the NaN-padded "
                    "CentroidCrop table", disagreements == 0, f"{disagreements} cases disagree")
